@@ -12,13 +12,13 @@ ASSUMPTIONS = [
     "float64 tally compared exactly: total voting power < 2^45 and (total-no)*100 != pass*total (tally_float_guard); "
     "fund shares are int64(percentage*10000) computed by the harness with the Go expression",
     "amounts are in OLT (Validate, run by CheckTx and since /repo d276709 by DeliverTx, refuses other currencies); their sign is NOT checked by Validate and negative amounts are modelled faithfully; int64 wrap of heights / power sums not modelled",
-    "storage iteration sees committed keys only and stops at a key deleted earlier in the block: modelled for vote tally and "
-    "IsFundedByFunder (records written in the current block are invisible); which funder records DeleteAllFunds misses is an "
-    "input (e_keep) observed on the implementation and judged by the monitor",
+    "storage iteration sees committed keys only: modelled for the vote tally and IsFundedByFunder (records written in the current "
+    "block are invisible); DeleteAllFunds is modelled as deleting every record (no uncommitted record can exist at a finalisation); "
+    "surviving records are judged by the monitor",
     "no validator is frozen and the validator set is never empty in the generated histories; storage never fails mid-distribution",
 ]
 
-TRIGGERS = {2: "C14.stale_fund_records", 3: "C14.negative_fund_amount", 4: "C14.pass_percentage_drift"}
+TRIGGERS = {}   # every finding of this property has been repaired in /repo; any monitor hit is a violation
 CODES = {1: "stage went backwards", 2: "proposal id held by two stores", 3: "recorded total differs from the sum of the funder records",
          4: "voting although the total is below the goal", 5: "expired (insufficientVotes) although not in voting with its deadline behind the block height",
          6: "snapshot validators/powers changed after voting began", 7: "passed store without completedYes / finalized with funds left",
@@ -110,25 +110,34 @@ def run(ctx):
         by[k] = by.get(k, 0) + 1
     cov.update({
         "evaluations": rep["steps"], "distinct_nontrivial": rep["distinct_cases"],
-        "rule": "4 scripted histories (corpus case of the fixed finding C14.public_expire_votes; honest life with two finalisations in one block and zero withdrawals; negative contribution; option pass percentage raised during a vote, on a genesis with production-range options) + seeded "
+        "rule": "4 scripted histories = corpus cases of the four fixed findings (public expire; two finalisations in one block + zero withdrawals; negative contribution; option pass percentage raised during a vote, on a genesis with production-range options) + seeded "
                 "random governance histories on the whole application (Replica): create/fund/vote/cancel/withdraw/public expire/public "
                 "finalize from proposers, funders, strangers, a poor account, validators and non-validators, stake changes, blocks past "
                 "the deadlines; stage-biased generator; distinct = distinct operation sequences",
         "traces_validated_against_impl": rep["cases"], "blocks": rep["blocks"], "proposals": rep["proposals"],
         "op_histogram": rep["op_histogram"], "ok_histogram": rep["ok_histogram"], "final_stage_histogram": rep["final_stage_histogram"],
-        "model_mismatches": len(mm), "monitor_hits": by, "corpus_public_expire_votes": notes,
+        "model_mismatches": len(mm), "monitor_hits": by, "corpus_cases_hold": notes,
         "samples": rep["samples"],
         "explanation": "theorems of props/C14.v re-checked (incl. router fact obligation on regenerated Facts_TxKinds); Gov.v evaluated by "
                        "vm_compute on every recorded history: per transaction ok/fail, per block the decoded proposal records of the five "
                        "stores, vote and fund records, balances of all involved accounts, fee pool, applied configuration (model_mismatches "
                        "must be 0); monitor = lifecycle/funds predicates of GovCheck.v on the implementation's observations",
     })
-    # corpus case (former finding C14.public_expire_votes, fixed by /repo 0988205): the property must HOLD —
-    # an unrelated account's EXPIRE_VOTES on a proposal in its funding stage is refused and moves nothing
-    if notes.get("e11_deliver_ok") or notes.get("e11_moved_to_failed") or notes.get("e11_checktx_code") == 0:
-        ctx.violation("corpus_public_expire_votes", {"kind": "fixed finding C14.public_expire_votes fails again: EXPIRE_VOTES from an "
-                      "unrelated account expired a proposal in its funding stage before any deadline", "notes": notes,
-                      "corpus": "corpus/C14.json", "args": args, "case_index": 0, "history": describe(cases[0])})
+    # corpus cases (former findings, all fixed in /repo): the property must HOLD on each of them
+    corpus = [
+        ("public_expire_votes", 0, "0988205", "EXPIRE_VOTES from an unrelated account expired a proposal in its funding stage before any deadline",
+         notes.get("e11_deliver_ok") or notes.get("e11_moved_to_failed") or notes.get("e11_checktx_code") == 0),
+        ("stale_fund_records", 1, "d859128", "funder records survived a finalisation / a finalised proposal accepted a withdrawal / id in two stores",
+         notes.get("stale_survivors", 0) != 0 or notes.get("stale_zero_withdraw_ok") or notes.get("stale_two_stores")),
+        ("negative_fund_amount", 2, "65cdcf3", "a negative contribution or withdrawal was accepted / the refund after the cancellation was refused",
+         notes.get("negfund_deliver_ok") or notes.get("negfund_checktx_code") == 0 or notes.get("negwithdraw_ok") or notes.get("negfund_refund_ok") is False),
+        ("pass_percentage_drift", 3, "c39c303", "a proposal whose votes pass under its own percentage was recorded as failed / ended up in two stores",
+         notes.get("drift_p1_outcome_yes") is False or notes.get("drift_p1_two_stores") or notes.get("drift_applied") != 1),
+    ]
+    for name, ci, commit, what, bad in corpus:
+        if bad:
+            ctx.violation("corpus_" + name, {"kind": "fixed finding C14.%s (%s) fails again: %s" % (name, commit, what), "notes": notes,
+                          "corpus": "corpus/C14.json", "args": args, "case_index": ci, "history": describe(cases[ci])})
     judge(ctx, args, rep, cases, mm, mon)
     if broken is not None and ctx.violations == 0:
         raise broken
